@@ -24,6 +24,11 @@ struct Sh<'a> {
     steps: u64,
     max_execs: u64,
     max_steps: u64,
+    balanced_kinds: Option<Vec<Vec<&'static str>>>,
+}
+
+fn op_kinds(case: &Case) -> Vec<Vec<&'static str>> {
+    case.tasks.iter().map(|t| t.ops.iter().map(|o| o.kind()).collect()).collect()
 }
 
 impl<'a> Sh<'a> {
@@ -34,6 +39,13 @@ impl<'a> Sh<'a> {
     fn try_run(&mut self, case: &Case, src: Source) -> Option<(RunData, Violation)> {
         if self.exhausted() {
             return None;
+        }
+        // a "balanced executors" case terminates by specification only as long as no operation is removed or
+        // weakened: such candidates are not tried (schedule, fault and payload shrinking still apply)
+        if let Some(k) = &self.balanced_kinds {
+            if *k != op_kinds(case) {
+                return None;
+            }
         }
         self.execs += 1;
         let d = execute(case, src);
@@ -94,7 +106,15 @@ fn weaken(op: &Op) -> Vec<Op> {
 }
 
 pub fn minimise(prop: &str, d0: &RunData, v0: &Violation) -> (RunData, Violation, bool) {
-    let mut sh = Sh { prop, class: class_of(&v0.sig).to_string(), execs: 0, steps: 0, max_execs: 2500, max_steps: 60_000_000 };
+    let mut sh = Sh {
+        prop,
+        class: class_of(&v0.sig).to_string(),
+        execs: 0,
+        steps: 0,
+        max_execs: 2500,
+        max_steps: 60_000_000,
+        balanced_kinds: if d0.case.balanced { Some(op_kinds(&d0.case)) } else { None },
+    };
     // baseline: the exact script must reproduce
     let base = sh.try_run(&d0.case, Source::Script { ts: d0.outcome.ts.clone(), ds: d0.outcome.ds.clone(), strict: true });
     let Some((mut best, mut bv)) = base else {
